@@ -19,7 +19,7 @@ import threading
 
 PROPERTY = 'C04'
 LEVEL = 'exploration'
-RULE = ('(prefix P, concurrent set S) drawn from 6 prefixes x all pairs (and sampled triples) of 11 RPC kinds aimed at '
+RULE = ('(prefix P, concurrent set S) drawn from 7 prefixes (incl. a pool of three queued trials) x all pairs (and sampled triples) of 12 RPC kinds aimed at '
         'the same study / trial / display name; per (P,S): every schedule with <=2 (quick) / <=3 (thorough) pre-emptions at '
         'datastore-call and service-lock granularity (capped) + random schedules; RAM and in-memory SQLite. A schedule is '
         'non-trivial when a switch happened between the first and last datastore call of some thread; distinct = hash of '
@@ -64,6 +64,8 @@ PREFIXES = {
     'two_workers': [CREATE, {'op': 'SuggestTrials', 'study': STUDY, 'count': 1, 'client': 'w1', '_stub_entry': {'delta': 0}},
                     {'op': 'SuggestTrials', 'study': STUDY, 'count': 1, 'client': 'w2', '_stub_entry': {'delta': 0}}],
     'no_study': [],
+    # a pool of queued (REQUESTED) trials larger than what one suggest call needs
+    'pool': [CREATE] + [{'op': 'CreateTrial', 'study': STUDY, 'params': {'x': 0.125 * (i + 1), 'k': i + 1, 'c': 'a'}} for i in range(3)],
 }
 
 MENU = {
@@ -79,6 +81,7 @@ MENU = {
     'Stop1': {'op': 'StopTrial', 'trial': T(1)},
     'Delete1': {'op': 'DeleteTrial', 'trial': T(1)},
     'Delete2': {'op': 'DeleteTrial', 'trial': T(2)},
+    'Delete3': {'op': 'DeleteTrial', 'trial': T(3)},
     'DeleteStudy': {'op': 'DeleteStudy', 'study': STUDY},
     'MetaStudy': {'op': 'UpdateMetadata', 'study': STUDY, 'delta': [[None, 'u', 'k', 'v1']]},
     'MetaStudy2': {'op': 'UpdateMetadata', 'study': STUDY, 'delta': [[None, 'u', 'k2', 'v2']]},
@@ -102,9 +105,11 @@ def all_combos():
     if p == 'no_study':
       pool = ['CreateStudy', 'CreateStudyB', 'CreateStudyOther', 'Suggest_w1', 'CreateTrial', 'MetaStudy', 'DeleteStudy']
     elif p == 'empty':
-      pool = [n for n in names if not n.endswith('1') and not n.endswith('1b') and n not in ('Delete2', 'MetaTrial2', 'MetaTrial1', 'EarlyStop1')]
+      pool = [n for n in names if not n.endswith('1') and not n.endswith('1b') and n not in ('Delete2', 'Delete3', 'MetaTrial2', 'MetaTrial1', 'EarlyStop1')]
+    elif p == 'pool':
+      pool = ['Suggest_w1', 'Suggest_w2', 'Delete1', 'Delete2', 'Delete3', 'CreateTrial', 'MetaTrial2', 'SetInactive', 'DeleteStudy']
     else:
-      pool = names
+      pool = [n for n in names if n != 'Delete3']
     for a, b in itertools.combinations_with_replacement(pool, 2):
       if a == b and a not in ('Suggest_w1', 'CreateTrial', 'CreateStudy', 'MetaStudy', 'Complete1'):
         continue
@@ -321,8 +326,80 @@ def describe_mismatch(obs, serials, names):
   return 'state', f'outcome classes {outs} fit a serial order but the final stored state does not: {best}'
 
 
-def classify(names, kind, text, obs):
+_PREFIX_TRIALS = {}
+
+
+def prefix_trials(pname):
+  """{trial id: (state, client)} after the sequential prefix (RAM, computed once)."""
+  if pname not in _PREFIX_TRIALS:
+    sv, _, _ = fresh('ram', pname)
+    out = {}
+    try:
+      for t in sv.datastore._inner.list_trials(STUDY):
+        from vv import service as S
+        out[int(t.id)] = (S.TS.Name(t.state), t.client_id)
+    except Exception:  # pylint: disable=broad-except
+      pass
+    _PREFIX_TRIALS[pname] = out
+  return _PREFIX_TRIALS[pname]
+
+
+def deleted_trial_role(pname, names):
+  """What the trial aimed at by a concurrent DeleteTrial was when the concurrent phase began,
+  relative to the concurrent SuggestTrials calls (part of the mechanism id: deleting a worker's own
+  ACTIVE trial under its feet is a different history from deleting a queued trial)."""
+  pt = prefix_trials(pname)
+  sug_clients = {MENU[n]['client'] for n in names if MENU[n]['op'] == 'SuggestTrials'}
+  roles = set()
+  for n in names:
+    if MENU[n]['op'] != 'DeleteTrial':
+      continue
+    tid = int(MENU[n]['trial'].rsplit('/', 1)[1])
+    if tid not in pt:
+      roles.add('created-in-flight')
+    elif pt[tid][0] == 'ACTIVE':
+      roles.add('own-active' if pt[tid][1] in sug_clients else 'other-workers-active')
+    elif pt[tid][0] == 'REQUESTED':
+      roles.add('queued')
+    else:
+      roles.add('completed')
+  return '+'.join(sorted(roles))
+
+
+def mismatch_site(names, text):
+  """Normalised place of the reported difference: whose response / which part of the stored state."""
+  import re
+  m = re.search(r': /outs\[(\d+)\]\[1\]/(.*?)(?:: |$)', text)
+  if m:
+    who = MENU[names[int(m.group(1))]]['op'] if int(m.group(1)) < len(names) else '?'
+    path = m.group(2)
+    site = f'response-of={who}'
+  else:
+    m = re.search(r': (/final/.*?)(?:: |$)', text)
+    if not m:
+      return 'site=?'
+    path = m.group(1)
+    site = 'stored'
+  if '/metadata/' in path or path.startswith('metadata/'):
+    key = path.split('metadata/', 1)[1]
+    field = 'metadata[algorithm-namespace]' if key.startswith('[":') else 'metadata[user-namespace]'
+  else:
+    field = re.sub(r'\[\d+\]', '', path).strip('/')
+    field = '/'.join(field.split('/')[-2:])
+  return f'{site}:{field}'
+
+
+def classify(names, kind, text, obs, pname=None):
   pair = '+'.join(sorted(set(MENU[n]['op'] for n in names)))
+  ops = {MENU[n]['op'] for n in names}
+  if kind in ('state', 'response') and pname is not None:
+    # mechanism ids of known findings name the specific history, so that another
+    # violation by the same pair of RPC kinds is still reported
+    if {'DeleteTrial', 'SuggestTrials'} <= ops and 'trials' in text and 'metadata' not in text:
+      base = ('lost-update' if kind == 'state' else 'non-serialisable-response') + f':{pair}:trials'
+      return f'{base}:deleted={deleted_trial_role(pname, names)}'
+    if {'SetStudyState', 'SuggestTrials'} <= ops and kind == 'response' and 'metadata' in text:
+      return f'non-serialisable-response:{pair}:metadata:{mismatch_site(names, text)}'
   if kind == 'deadlock':
     return f'deadlock:{pair}'
   if kind == 'unfinished-op':
@@ -377,7 +454,7 @@ def check_observation(ctx, obs, serials, backend, pname, names, how):
       problems.append(('lost-algorithm-state', f'algorithm ran {actual}x but its persisted counter says {stored}'))
   stop = False
   for kind, text in problems[:1]:
-    mech = classify(names, kind, text, obs)
+    mech = classify(names, kind, text, obs, pname)
     ctx.violation(mech, f'{backend} prefix={pname} S={list(names)} schedule={sch.schedule_string()}: {text}'[:700],
                   case)
     # a listed finding must not hide a different violation reachable by another schedule
@@ -443,6 +520,7 @@ def stress(ctx, index, backend, n_threads, ops_per_thread):
   lock = threading.Lock()
   errors = []
   seeds = [rng.getrandbits(32) for _ in range(n_threads)]
+  progress = [0]
 
   def worker(w):
     import random
@@ -476,19 +554,42 @@ def stress(ctx, index, backend, n_threads, ops_per_thread):
         else:
           tid = mine.pop(0)
           S.call_servicer(sv, {'op': 'CompleteTrial', 'trial': T(tid), 'final': {'metrics': {'obj': 1.0}}})
-        ctx.count('stress_operations')
+        with lock:
+          progress[0] += 1
       except Exception as e:  # pylint: disable=broad-except
         errors.append(('harness', type(e).__name__, str(e)[:100]))
   threads = [threading.Thread(target=worker, args=(w,), daemon=True) for w in range(n_threads)]
   for t in threads:
     t.start()
-  for t in threads:
-    t.join(120)
+  # Deadlock is decided on progress, not on wall-clock duration: as long as some
+  # thread still completes operations the run is merely slow (loaded machine,
+  # growing trial table). No completed operation by any thread for 180 s while
+  # threads are alive means every client is blocked.
+  import time
+  last_n, last_t, t_start = -1, time.time(), time.time()
+  stuck = gave_up = False
+  while any(t.is_alive() for t in threads):
+    time.sleep(0.2)
+    n_done = progress[0]
+    if n_done != last_n:
+      last_n, last_t = n_done, time.time()
+    elif time.time() - last_t > 180:
+      stuck = True
+      break
+    if time.time() - t_start > 900:
+      gave_up = True
+      break
   sys.setswitchinterval(old)
   case = {'stress': True, 'backend': backend, 'index': index, 'threads': n_threads, 'ops': ops_per_thread}
   ctx.count('stress_runs')
-  if any(t.is_alive() for t in threads):
-    ctx.violation('stress:thread-did-not-terminate', 'a client thread did not terminate within 120 s', case)
+  ctx.count('stress_operations', progress[0])
+  if stuck:
+    ctx.violation('stress:no-client-makes-progress', 'no client thread completed an operation for 180 s while '
+                  f'{sum(t.is_alive() for t in threads)} threads were still inside calls (deadlock)', case)
+    return
+  if gave_up:
+    ctx.note('stress run still progressing after 900 s (slow machine): abandoned without verdict')
+    ctx.count('stress_runs_abandoned_slow')
     return
   snap = S.snapshot(sv, ['o'])['o'][STUDY]
   trials = {t['id']: t for t in snap['trials']}
@@ -539,11 +640,11 @@ def run_shard(ctx):
       items.append((backend, pname, names))
   # stress first (bounded), then the matrix in a seed-dependent rotation so that a
   # time-boxed run covers different combos on different seeds
-  n_stress = 1 if quick else 6
+  n_stress = 1 if quick else 10
   for k in range(n_stress):
     idx = ctx.shard * 100 + k
     stress(ctx, idx, ['ram', 'sqlmem'][(ctx.shard + k) % 2], n_threads=8 if quick else 12,
-           ops_per_thread=60 if quick else 400)
+           ops_per_thread=60 if quick else 150)
   rot = (ctx.seed * 37) % max(1, len(items))
   items = items[rot:] + items[:rot]
   done = 0
